@@ -44,7 +44,11 @@ Theorem c08_nothing_after_shutdown :
   forall reason ct_text rs c, c_ws c = WsShutdown -> conn_write_many reason ct_text c rs = c.
 Proof. exact write_many_shutdown. Qed.
 
-(* C08.3  zero_bytes_keeps_owed.  If write_response fails with no byte accepted, the state is still
+(* C08.3  zero_bytes_keeps_owed.  The connection [c] is ARBITRARY apart from owing a response: its
+   wire [c_wire c] may already hold any number of bytes (earlier complete responses of a kept-alive
+   connection, the 100-continue of this exchange); "no byte accepted" means no byte of THIS call
+   (c_wire c' = c_wire c), which is what the per-call AsyncWriteCounter measures.
+   If write_response fails with no byte accepted, the state is still
    "response owed" (no shutdown call), and the single 500 answer written next is emitted as a prefix of
    its own serialisation -- the whole of it when that write succeeds -- after which the write side is
    shut down. *)
@@ -96,6 +100,44 @@ Theorem c08_oracle_conn_sound :
     oracle_c08_conn reason ct_text r r500 res (c_ws (snd (conn_write_response reason ct_text c r))) res2 (c_wire c2) = true.
 Proof. exact oracle_c08_conn_model. Qed.
 
+(* C08.6  The same with earlier traffic made explicit.  (a) For a connection whose prior wire is
+   ARBITRARY the exchange only appends to it, and what it appends obeys the connection-level oracle.
+   (b) A session: any list of earlier successful non-closing responses (complete 2xx answers of
+   earlier requests and/or a 100-continue), then the response under test, then the error path: the
+   client gets exactly the earlier responses followed by bytes that obey the oracle -- so a response
+   refused with zero bytes is still followed by the one whole 500 however much was sent before. *)
+Theorem c08_oracle_conn_any_prior :
+  forall reason ct_text c r r500,
+    c_ws c = WsResponse -> r_normal r500 = true -> collides r500 = false ->
+    let '(res, res2, c2) := conn_exchange reason ct_text c r r500 in
+    exists x, c_wire c2 = c_wire c ++ x /\
+              oracle_c08_conn reason ct_text r r500 res (c_ws (snd (conn_write_response reason ct_text c r))) res2 x = true.
+Proof. exact oracle_c08_conn_any_prior. Qed.
+
+Theorem c08_oracle_session_sound :
+  forall reason ct_text c pre r r500,
+    c_ws c <> WsShutdown -> c_wire c = [] -> writer_errfree (c_writer c) = true ->
+    forallb prefix_resp_ok pre = true -> r_normal r500 = true -> collides r500 = false ->
+    let '(res, st1, res2, c2) := conn_session reason ct_text c pre r r500 in
+    oracle_c08_session reason ct_text pre r r500 res st1 res2 (c_wire c2) = true.
+Proof. exact oracle_c08_session_model. Qed.
+
+(* non-vacuity of C08.6: a complete 200 and a 100-continue were sent, then a response with a duplicated
+   content-length is refused with zero bytes: still owed, and the 500 goes out whole after the earlier bytes *)
+Example c08_session_nonvacuous :
+  let reason := fun _ : N => [79;75] in
+  let ct := fun _ : nat => [116;47;112] in
+  let ok200 := mkResponse true 200 CtNone [] (BKnown 2 true (mkReader [104;105] [])) in
+  let r100 := mkResponse true 100 CtNone [] (BKnown 0 true (mkReader [] [])) in
+  let bad := mkResponse true 200 CtNone [(s_content_length, [53])] (BKnown 2 true (mkReader [104;105] [])) in
+  let r500 := mkResponse true 500 (CtText [116;47;112]) [] (BKnown 2 true (mkReader [110;111] [])) in
+  let c := mkConn WsNone writer_all [] 0 in
+  let '(res, st1, res2, c2) := conn_session reason ct c [ok200; r100] bad r500 in
+  res = Some (CeWrite EDupContentLength) /\ st1 = WsResponse /\ res2 = Some None /\
+  c_wire c2 = prior_wire reason ct [ok200; r100] ++ full_wire reason ct r500 true /\
+  forallb prefix_resp_ok [ok200; r100] = true.
+Proof. vm_compute. repeat split; reflexivity. Qed.
+
 (* non-vacuity: a 200 with a 5-byte body over a socket that fails after 30 bytes: 30 bytes sent,
    shut down, and the 500 of the error path adds nothing; and a missing-file body at offset 0 of a
    dead socket keeps the response owed. *)
@@ -120,3 +162,5 @@ Print Assumptions c08_following_500_emitted_whole.
 Print Assumptions c08_conn_loop_error_path.
 Print Assumptions c08_oracle_ser_sound.
 Print Assumptions c08_oracle_conn_sound.
+Print Assumptions c08_oracle_conn_any_prior.
+Print Assumptions c08_oracle_session_sound.
